@@ -100,7 +100,9 @@ def Val.isBytes {α} : Val α → Bool
   | .bytes _ => true
   | _ => false
 
-/-- What `pickler.loads(p)` did. -/
+/-- What `Serializer._decode(p)` did: `pickler.loads(p)` followed, while the option `check_repr` is on (the default; a settings
+url switches it off with `check_repr=false` / `0`, defect D72), by `repr(value)`, whose AttributeError (an object of a class that
+lost attributes since it was pickled) counts as `attrError` and whose other failures are ignored (D58). -/
 inductive Loaded (α : Type) where
   | ok (v : Val α)
   | unpickling            -- raised a member of `pickler.UnpicklingError`
@@ -365,6 +367,20 @@ def toBytes : SecretArg → Option Bytes
   | .str u => some u
   | .bytes b => some b
   | .other => none
+
+/-- NOT what `HashSigner.check_sign` does, but what a verifier holding SEVERAL secrets would do (a "rotation list", e.g. the
+configured text split at `,`): accept when the signature matches under ANY of them.  Kept in the model only to state what
+that would mean (`Props.C10.any_secret_verifier_accepts_foreign_secret`): `HashSigner` holds ONE secret, the whole
+configured text — `toBytes (.str u) = some u`, separators and all. -/
+def checkHashAny (cfg : Cfg α) (secrets : List Bytes) (digest : Digest) (key value : Bytes) : Check :=
+  match splitFirst us value with
+  | none => .missing
+  | some (hdr, payload) =>
+    match signAndDigest { secret := [], digest := digest } hdr with
+    | none => .unsecure
+    | some (sig, d) =>
+      if secrets.any (fun s => genSign cfg { secret := s, digest := digest } d key payload = sig) then .ok payload
+      else .unsecure
 
 /-- does `encode` compute a MAC?  (not for integers, not with the `NullSigner`) -/
 def encodeUsesMac (cfg : Cfg α) (v : Val α) : Bool :=
